@@ -139,7 +139,7 @@ func (s c04Spec) String() string {
 var (
 	c04SigVals   = []string{"right", "right-nokid", "right-otherkid", "foreign-samekid", "foreign-otherkid", "foreign-nokid", "none", "none-junksig", "hs256-pem", "hs256-der", "es256", "badsig", "sig-of-other"}
 	c04IssVals   = []string{"exact", "slash", "other", "missing", "case", "suffix", "number", "extra"}
-	c04AudVals   = []string{"cid", "[cid]", "[other,cid]", "extra", "[other,extra]", "other", "[]", "missing", "number", "object", "[1]", "null", "cid-prefix", "CID", "extra-issuer-aud", "azp=cid", "azp=[other,cid]", "azp=other,aud=cid", "azp=number", "azp=[1,2]", "azp=object", "azp=[]", "azp=cid,aud=missing"}
+	c04AudVals   = []string{"cid", "[cid]", "[other,cid]", "extra", "[other,extra]", "other", "[]", "missing", "number", "object", "[1]", "null", "cid-prefix", "CID", "extra-issuer-aud", "azp=cid", "azp=[other,cid]", "azp=other,aud=cid", "azp=number", "azp=[1,2]", "azp=object", "azp=[]", "azp=cid,aud=missing", "azp=[cid,1]", "empty-string"}
 	c04ExpVals   = []string{"+1h", "+5m", "-1h", "-90s", "missing", "string"}
 	c04EVVals    = []string{"absent", "true", "false", "str-false"}
 	c04ClaimVals = []string{"full", "no-email", "no-pu", "no-groups", "minimal", "unicode", "long", "groups-scalar"}
@@ -328,6 +328,10 @@ func c04Claims(s c04Spec, cfg *c04Cfg, idp2Issuer string, base map[string]interf
 		c["aud"], c["azp"] = "cid", []string{}
 	case "azp=cid,aud=missing":
 		c["azp"] = "cid"
+	case "azp=[cid,1]":
+		c["aud"], c["azp"] = "cid", []interface{}{"cid", 1}
+	case "empty-string":
+		c["aud"] = ""
 	}
 	now := time.Now()
 	switch s.Exp {
@@ -665,7 +669,9 @@ type c04Expect struct {
 
 const c04Sep = "\x00"
 
-func c04Expected(t c04Token, cfg *c04Cfg, v c04Verifier, path string, profile map[string]interface{}) c04Expect {
+// prevEmail (refresh path only): a refreshed token that has no e-mail claim, with no profile endpoint to supply one,
+// leaves the session's previous e-mail in place (documented in providers/oidc.go; an empty e-mail is never acceptable there).
+func c04Expected(t c04Token, cfg *c04Cfg, v c04Verifier, path string, profile map[string]interface{}, prevEmail string) c04Expect {
 	emailClaim, groupsClaim := cfg.EmailClaim, cfg.GroupsClaim
 	if v.Extra {
 		emailClaim, groupsClaim = "email", "groups"
@@ -692,6 +698,15 @@ func c04Expected(t c04Token, cfg *c04Cfg, v c04Verifier, path string, profile ma
 		return f
 	}
 	e := c04Expect{User: field("sub", false), Email: field(emailClaim, false), Groups: field(groupsClaim, true), PU: field("preferred_username", false)}
+	if path == "refresh" && !e.Email.FromToken {
+		may := []string{prevEmail}
+		for _, m := range e.Email.May {
+			if m != "" {
+				may = append(may, m)
+			}
+		}
+		e.Email.May = may
+	}
 	if path == "bearer" && !e.Email.FromToken {
 		// documented for bearer tokens: "Allow empty Email in Bearer case since we can't hit the ProfileURL" — the user id stands in
 		e.Email.May = append(e.Email.May, e.User.Must)
@@ -855,7 +870,7 @@ func (r *c04Runner) cell(cfg *c04Cfg, path string, s c04Spec, ref c04Ref) string
 }
 
 // judge: existence + identity. Returns true when a session was observed.
-func (r *c04Runner) judge(cfg *c04Cfg, path string, s c04Spec, hdr string, t c04Token, ref c04Ref, obs c04Obs, cookieIssued bool, profile map[string]interface{}) {
+func (r *c04Runner) judge(cfg *c04Cfg, path string, s c04Spec, hdr string, t c04Token, ref c04Ref, obs c04Obs, cookieIssued bool, profile map[string]interface{}, prevEmail string) {
 	run := r.run
 	run.Eval(r.cell(cfg, path, s, ref))
 	run.Count("cases_"+path, 1)
@@ -883,7 +898,7 @@ func (r *c04Runner) judge(cfg *c04Cfg, path string, s c04Spec, hdr string, t c04
 		run.Count("ref_accept_"+path, 1)
 		if !session {
 			// callback without any e-mail (token and profile): the provider refuses the login — not decided by the statement
-			if path == "callback" && !c04Expected(t, cfg, cfg.Verifiers[ref.Verifier], path, profile).Email.FromToken && cfg.SkipProfile {
+			if path == "callback" && !c04Expected(t, cfg, cfg.Verifiers[ref.Verifier], path, profile, prevEmail).Email.FromToken && cfg.SkipProfile {
 				run.Count("callback_without_email_refused", 1)
 				return
 			}
@@ -905,7 +920,7 @@ func (r *c04Runner) judge(cfg *c04Cfg, path string, s c04Spec, hdr string, t c04
 	if v.Extra && !cfg.defaultClaimNames() {
 		return
 	}
-	exp := c04Expected(t, cfg, v, path, profile)
+	exp := c04Expected(t, cfg, v, path, profile, prevEmail)
 	var diffs []string
 	chk := func(name string, f c04Field, got string) {
 		if !f.accepts(got) {
@@ -994,7 +1009,7 @@ func (r *c04Runner) callbackCase(cfg *c04Cfg, s c04Spec, n int) {
 	if ref.V == c04Bad && cb.Code == 302 && !cookieIssued && !obs.session() {
 		r.run.Count("callback_302_without_session", 1)
 	}
-	r.judge(cfg, "callback", s, "", t, ref, obs, cookieIssued, profile)
+	r.judge(cfg, "callback", s, "", t, ref, obs, cookieIssued, profile, "")
 }
 
 var c04HeaderVariants = []string{"bearer", "basic-user-empty-password", "basic-user-x-oauth-basic", "basic-password"}
@@ -1025,7 +1040,7 @@ func (r *c04Runner) bearerCase(cfg *c04Cfg, s c04Spec, n int, variant string) {
 	r.run.Count("bearer_variant_"+variant, 1)
 	// the profile endpoint cannot be consulted for a bearer token (no access token) — pass the default profile values
 	// of the rig anyway so that their appearance would be recognised
-	r.judge(cfg, "bearer", s, variant, t, ref, obs, cookieIssued, c04Profile(tag))
+	r.judge(cfg, "bearer", s, variant, t, ref, obs, cookieIssued, c04Profile(tag), "")
 }
 
 type c04Refresh struct {
@@ -1203,12 +1218,12 @@ func (r *c04Runner) refreshProbe(rc *c04Refresh) {
 	switch ro.Outcome {
 	case "B":
 		// identity and existence judged exactly like the other paths
-		r.judge(cfg, "refresh", rc.s, "", t, ref, obs, false, rc.profile)
+		r.judge(cfg, "refresh", rc.s, "", t, ref, obs, false, rc.profile, rc.identA.Email)
 	default:
 		// A kept or signed out: both fine when the token is invalid; a valid token that was not taken up is inconclusive
 		silent := obs
 		silent.UserinfoCode, silent.UpHit = 0, false
-		r.judge(cfg, "refresh", rc.s, "", t, ref, silent, false, rc.profile)
+		r.judge(cfg, "refresh", rc.s, "", t, ref, silent, false, rc.profile, rc.identA.Email)
 	}
 }
 
@@ -1216,7 +1231,7 @@ func (r *c04Runner) refreshProbe(rc *c04Refresh) {
 
 func TestVerif_C04(t *testing.T) {
 	run := vfNewRun(t, "C04", "exploration")
-	run.SetRule("token grid = signature (13 variants) x iss (8) x audience shape incl. custom audience claim (23) x exp (6) x email_verified (4) x claim set (8): " +
+	run.SetRule("token grid = signature (13 variants) x iss (8) x audience shape incl. custom audience claim (25) x exp (6) x email_verified (4) x claim set (8): " +
 		"every single deviation from a valid token, (thorough) every pair of deviations, plus a seeded random sample of combinations; on the callback, refresh and bearer " +
 		"(4 Authorization variants, incl. extra JWT issuer) paths; per configuration kind (discovery / JWKS URL / key file / extra audiences / audience claims / allow-unverified / custom claims / user-id-claim / no profile / extra issuer / skip-nonce, cookie and Redis store). " +
 		"cell = (path, configuration, which clause of V is the ONLY failing one + its variant) or (path, configuration, valid, audience shape, claim set); multi-failure cases are trivial")
@@ -1241,10 +1256,10 @@ func TestVerif_C04(t *testing.T) {
 	for ci, cfg := range cfgs {
 		rng := rand.New(rand.NewSource(run.Env.Seed*1000003 + int64(ci)))
 		base := c04Baseline(cfg, false)
-		// pairs of deviations: thorough everywhere; quick only on the cheap bearer path of three configurations
+		// pairs of deviations: thorough everywhere; quick only on the cheap bearer path of one configuration
 		cbSpecs := c04Specs(rng, base, thorough, run.Env.Pick(12, 150))
 		rfSpecs := c04Specs(rng, base, thorough && ci%2 == 0, run.Env.Pick(8, 100))
-		bePairs := thorough || cfg.Name == "disc" || cfg.Name == "audclaim-azp+aud" || cfg.Name == "extra-issuer"
+		bePairs := thorough || cfg.Name == "audclaim-azp+aud"
 		beSpecs := c04Specs(rng, base, bePairs, run.Env.Pick(30, 400))
 		if len(cfg.Verifiers) > 1 {
 			beSpecs = append(beSpecs, c04Specs(rng, c04Baseline(cfg, true), bePairs, run.Env.Pick(30, 400))...)
